@@ -1,5 +1,7 @@
 (* C07_graph_proofs.v — NoUndefinedVariables / NoUnusedVariables fire exactly when the
-   specification condition is violated (documents with distinct fragment and operation names).
+   specification condition is violated, for EVERY document: the rules key the tables of an
+   operation by (index of the operation in the document, name), so operations that share a name
+   (or are all anonymous) have their own tables ([idefs], [def_entry_fresh], [idefs_index_inj]).
    Plan: (1) the tables collected by the walk, (2) the reachability walk [vars_walk] is total with
    the supplied fuel and computes the least fixed point, (3) [spread_closure] computes the same
    reachability relation (closure lemmas reused from C06_graph_proofs), (4) the two equivalences.
@@ -19,8 +21,17 @@ Lemma name_eqb_sym a b : name_eqb a b = name_eqb b a.
 Proof. apply String.eqb_sym. Qed.
 Lemma oname_eqb_eq a b : oname_eqb a b = true <-> a = b.
 Proof. destruct a, b; cbn; rewrite ?name_eqb_eq; split; congruence. Qed.
+Lemma opkey_eqb_eq a b : opkey_eqb a b = true <-> a = b.
+Proof.
+  destruct a as [i x], b as [j y]. unfold opkey_eqb. cbn [fst snd].
+  rewrite andb_true_iff, Nat.eqb_eq, oname_eqb_eq. split; [intros [-> ->]; reflexivity|intro H; inversion H; auto].
+Qed.
+Lemma opkey_eqb_refl a : opkey_eqb a a = true.
+Proof. apply opkey_eqb_eq. reflexivity. Qed.
 Lemma scope_eqb_eq a b : scope_eqb a b = true <-> a = b.
-Proof. destruct a, b; cbn; rewrite ?oname_eqb_eq, ?name_eqb_eq; split; congruence. Qed.
+Proof.
+  destruct a as [i x|x], b as [j y|y]; cbn [scope_eqb]; rewrite ?opkey_eqb_eq, ?name_eqb_eq; split; congruence.
+Qed.
 Lemma scope_eqb_refl a : scope_eqb a a = true.
 Proof. apply scope_eqb_eq. reflexivity. Qed.
 Lemma oname_eqb_refl a : oname_eqb a a = true.
@@ -187,6 +198,7 @@ Definition Seg (evs : list event) (vars sprs : list name) : Prop :=
   forall st sc, vs_scope st = Some sc ->
     vs_scope (cfold evs st) = Some sc /\
     vs_defined (cfold evs st) = vs_defined st /\
+    vs_seen (cfold evs st) = vs_seen st /\
     (forall sc', tget sc' (vs_used (cfold evs st))
                  = tget sc' (vs_used st) ++ (if scope_eqb sc' sc then vars else [])) /\
     (forall sc', tget sc' (vs_spreads (cfold evs st))
@@ -204,9 +216,9 @@ Qed.
 Lemma Seg_app a b v1 s1 v2 s2 : Seg a v1 s1 -> Seg b v2 s2 -> Seg (a ++ b) (v1 ++ v2) (s1 ++ s2).
 Proof.
   intros Ha Hb st sc Hsc. rewrite cfold_app.
-  destruct (Ha st sc Hsc) as (A1 & A2 & A3 & A4).
-  destruct (Hb (cfold a st) sc A1) as (B1 & B2 & B3 & B4).
-  split; [exact B1|]. split; [congruence|]. split; intro sc'.
+  destruct (Ha st sc Hsc) as (A1 & A2 & A5 & A3 & A4).
+  destruct (Hb (cfold a st) sc A1) as (B1 & B2 & B5 & B3 & B4).
+  split; [exact B1|]. split; [congruence|]. split; [congruence|]. split; intro sc'.
   - rewrite B3, A3, <- app_assoc. destruct (scope_eqb sc' sc); reflexivity.
   - rewrite B4, A4, <- app_assoc. destruct (scope_eqb sc' sc); reflexivity.
 Qed.
@@ -237,7 +249,7 @@ Definition args_vars (args : list argument) : list name := flat_map (fun a : arg
 Lemma Seg_enter_argument a : Seg [Enter (NArgument a)] (var_leaves (snd a)) [].
 Proof.
   intros st sc Hsc. unfold cfold. cbn [fold_left vars_collect]. rewrite Hsc.
-  cbn [vs_scope vs_defined vs_used vs_spreads]. repeat split; try assumption; intro sc'.
+  cbn [vs_scope vs_defined vs_seen vs_used vs_spreads]. repeat split; try assumption; intro sc'.
   - rewrite tget_append, vin_eq. reflexivity.
   - destruct (scope_eqb sc' sc); rewrite app_nil_r; reflexivity.
 Qed.
@@ -245,7 +257,7 @@ Qed.
 Lemma Seg_enter_spread p n dirs : Seg [Enter (NSpread (SSpread p n dirs))] [] [n].
 Proof.
   intros st sc Hsc. unfold cfold. cbn [fold_left vars_collect]. rewrite Hsc.
-  cbn [vs_scope vs_defined vs_used vs_spreads]. repeat split; try assumption; intro sc'.
+  cbn [vs_scope vs_defined vs_seen vs_used vs_spreads]. repeat split; try assumption; intro sc'.
   - destruct (scope_eqb sc' sc); rewrite app_nil_r; reflexivity.
   - rewrite as_push_append, tget_append. reflexivity.
 Qed.
@@ -343,11 +355,110 @@ Proof.
 Qed.
 
 (* ------------------------------------------------------------------ (a) the collected tables *)
+(* the definitions of a document, each with the number of operation definitions before it
+   (counted from k): the index the rules give to an operation *)
+Fixpoint idefs (k : nat) (ds : document) : list (nat * definition) :=
+  match ds with
+  | [] => []
+  | DOp o :: r => (k, DOp o) :: idefs (S k) r
+  | DFrag f :: r => (k, DFrag f) :: idefs k r
+  end.
+Definition nops (ds : document) : nat := List.length (operations_of ds).
+Definition iops (k : nat) (ds : document) : list (nat * operation) :=
+  flat_map (fun x : nat * definition => match snd x with DOp o => [(fst x, o)] | DFrag _ => [] end) (idefs k ds).
+
+Lemma operations_of_app a b : operations_of (a ++ b) = operations_of a ++ operations_of b.
+Proof. apply flat_map_app. Qed.
+
+Lemma nops_app a b : nops (a ++ b) = nops a + nops b.
+Proof. unfold nops. rewrite operations_of_app. apply app_length. Qed.
+
+Lemma idefs_app a : forall k b, idefs k (a ++ b) = idefs k a ++ idefs (k + nops a) b.
+Proof.
+  induction a as [|x r IH]; intros k b; cbn [app idefs].
+  - unfold nops. cbn. rewrite Nat.add_0_r. reflexivity.
+  - destruct x as [o|f]; cbn [app]; rewrite IH; unfold nops; cbn [operations_of flat_map app List.length].
+    + fold (operations_of r). rewrite Nat.add_succ_r. reflexivity.
+    + fold (operations_of r). reflexivity.
+Qed.
+
+Lemma iops_app k a b : iops k (a ++ b) = iops k a ++ iops (k + nops a) b.
+Proof. unfold iops. rewrite idefs_app. apply flat_map_app. Qed.
+
+Lemma idefs_ge ds : forall k i x, In (i, x) (idefs k ds) -> k <= i.
+Proof.
+  induction ds as [|y r IH]; intros k i x H; [destruct H|].
+  destruct y as [o|f]; cbn [idefs] in H; destruct H as [H|H]; try (inversion H; lia).
+  - apply IH in H. lia.
+  - apply IH in H. lia.
+Qed.
+
+Lemma idefs_op_lt ds : forall k i o, In (i, DOp o) (idefs k ds) -> i < k + nops ds.
+Proof.
+  induction ds as [|y r IH]; intros k i o H; [destruct H|].
+  destruct y as [o'|f]; cbn [idefs] in H; unfold nops; cbn [operations_of flat_map app List.length];
+    fold (operations_of r); fold (nops r); destruct H as [H|H]; try (inversion H; lia).
+  - apply IH in H. lia.
+  - apply IH in H. lia.
+Qed.
+
+Lemma in_idefs ds x : forall k, In x ds <-> exists i, In (i, x) (idefs k ds).
+Proof.
+  induction ds as [|y r IH]; intro k; cbn [idefs In].
+  - split; [intros []|intros (i & [])].
+  - destruct y as [o|f]; cbn [In].
+    + rewrite (IH (S k)). split.
+      * intros [<-|(i & H)]; [exists k; left; reflexivity|exists i; right; exact H].
+      * intros (i & [H|H]); [left; inversion H; reflexivity|right; exists i; exact H].
+    + rewrite (IH k). split.
+      * intros [<-|(i & H)]; [exists k; left; reflexivity|exists i; right; exact H].
+      * intros (i & [H|H]); [left; inversion H; reflexivity|right; exists i; exact H].
+Qed.
+
+Lemma idefs_snd_In k ds i x : In (i, x) (idefs k ds) -> In x ds.
+Proof. intro H. apply (in_idefs ds x k). exists i. exact H. Qed.
+
+(* an index names one operation *)
+Lemma idefs_index_inj ds : forall k i o o',
+  In (i, DOp o) (idefs k ds) -> In (i, DOp o') (idefs k ds) -> o = o'.
+Proof.
+  induction ds as [|y r IH]; intros k i o o' H H'; [destruct H|].
+  destruct y as [o0|f]; cbn [idefs] in H, H'.
+  - destruct H as [H|H], H' as [H'|H'].
+    + inversion H. inversion H'. congruence.
+    + inversion H. subst. apply idefs_ge in H'. lia.
+    + inversion H'. subst. apply idefs_ge in H. lia.
+    + exact (IH _ _ _ _ H H').
+  - destruct H as [H|H]; [inversion H|]. destruct H' as [H'|H']; [inversion H'|].
+    exact (IH _ _ _ _ H H').
+Qed.
+
+Lemma in_iops k ds i o : In (i, o) (iops k ds) <-> In (i, DOp o) (idefs k ds).
+Proof.
+  unfold iops. rewrite in_flat_map. split.
+  - intros ([j [o'|f]] & Hx & H); cbn [fst snd] in H; [|destruct H].
+    destruct H as [H|[]]. inversion H. subst. exact Hx.
+  - intro H. exists (i, DOp o). split; [exact H|left; reflexivity].
+Qed.
+
+Lemma in_operations_of d o : In o (operations_of d) <-> In (DOp o) d.
+Proof.
+  unfold operations_of. rewrite in_flat_map. split.
+  - intros ([o'|f] & Hx & Ho); [|destruct Ho]. destruct Ho as [->|[]]. exact Hx.
+  - intro H. exists (DOp o). split; [exact H|left; reflexivity].
+Qed.
+
+Lemma operations_iops d o : In o (operations_of d) <-> exists i, In (i, o) (iops 0 d).
+Proof.
+  rewrite in_operations_of, (in_idefs d (DOp o) 0). split; intros (i & H); exists i; apply in_iops; exact H.
+Qed.
+
 Definition vset (o : operation) : list name :=
   fold_left (fun l v => set_add (v_name v) l) (op_variable_definitions o) [].
-Definition def_entry (o : operation) : option name * list name := (op_node_name o, vset o).
-Definition def_scope (x : definition) : scope :=
-  match x with DOp o => ScOp (op_node_name o) | DFrag f => ScFrag (fr_name f) end.
+Definition def_entry (io : nat * operation) : (nat * option name) * list name :=
+  ((fst io, op_node_name (snd io)), vset (snd io)).
+Definition def_scope (x : nat * definition) : scope :=
+  match snd x with DOp o => ScOp (fst x) (op_node_name o) | DFrag f => ScFrag (fr_name f) end.
 Definition def_vars (x : definition) : list name :=
   match x with
   | DOp o => dirs_vars (op_directives o) ++ sels_vars (o_sels o)
@@ -355,114 +466,125 @@ Definition def_vars (x : definition) : list name :=
   end.
 Definition def_sprs (x : definition) : list name := spreads_in (def_sels x).
 Definition used_spec (ds : document) (sc : scope) : list name :=
-  flat_map (fun x => if scope_eqb sc (def_scope x) then def_vars x else []) ds.
+  flat_map (fun x => if scope_eqb sc (def_scope x) then def_vars (snd x) else []) (idefs 0 ds).
 Definition sprs_spec (ds : document) (sc : scope) : list name :=
-  flat_map (fun x => if scope_eqb sc (def_scope x) then def_sprs x else []) ds.
+  flat_map (fun x => if scope_eqb sc (def_scope x) then def_sprs (snd x) else []) (idefs 0 ds).
 
 Record TInv (ds : document) (st : vars_state) : Prop := mkTInv {
-  ti_defined : vs_defined st = map def_entry (operations_of ds);
+  ti_defined : vs_defined st = map def_entry (iops 0 ds);
+  ti_seen : vs_seen st = nops ds;
   ti_used : forall sc, tget sc (vs_used st) = used_spec ds sc;
   ti_sprs : forall sc, tget sc (vs_spreads st) = sprs_spec ds sc }.
 
 Lemma cfold_cons e r st : cfold (e :: r) st = cfold r (vars_collect st e).
 Proof. reflexivity. Qed.
 
-Lemma cfold_vardef v st m n vars :
-  vs_scope st = Some (ScOp n) -> vs_defined st = m ++ [(n, vars)] -> as_get oname_eqb n m = None ->
+Lemma cfold_vardef v st m k vars :
+  vs_scope st = Some (ScOp (fst k) (snd k)) -> vs_defined st = m ++ [(k, vars)] -> as_get opkey_eqb k m = None ->
   cfold (lin_vardef v) st
-  = mkVars (vs_scope st) (m ++ [(n, set_add (v_name v) vars)]) (vs_used st) (vs_spreads st).
+  = mkVars (vs_scope st) (m ++ [(k, set_add (v_name v) vars)]) (vs_seen st) (vs_used st) (vs_spreads st).
 Proof.
   intros Hsc Hdef Hnone. unfold lin_vardef. rewrite cfold_cons.
   assert (Hin : Inert (match v_default v with Some dv => lin_value dv | None => [] end ++ [Leave (NVarDef v)])).
   { apply Inert_app; [|apply Inert_one; intro st'; reflexivity].
     destruct (v_default v); [apply Inert_value|apply Inert_nil]. }
-  rewrite Hin. cbn [vars_collect]. rewrite Hsc, Hdef, (as_get_app oname_eqb), Hnone. cbn [as_get].
-  rewrite oname_eqb_refl. rewrite (as_set_app_last oname_eqb oname_eqb_eq) by exact Hnone. reflexivity.
+  rewrite Hin. cbn [vars_collect]. rewrite Hsc. rewrite <- (surjective_pairing k).
+  rewrite Hdef, (as_get_app opkey_eqb), Hnone. cbn [as_get].
+  rewrite opkey_eqb_refl. rewrite (as_set_app_last opkey_eqb opkey_eqb_eq) by exact Hnone. reflexivity.
 Qed.
 
-Lemma cfold_vardefs vds : forall st m n vars,
-  vs_scope st = Some (ScOp n) -> vs_defined st = m ++ [(n, vars)] -> as_get oname_eqb n m = None ->
+Lemma cfold_vardefs vds : forall st m k vars,
+  vs_scope st = Some (ScOp (fst k) (snd k)) -> vs_defined st = m ++ [(k, vars)] -> as_get opkey_eqb k m = None ->
   cfold (flat_map lin_vardef vds) st
-  = mkVars (vs_scope st) (m ++ [(n, fold_left (fun l v => set_add (v_name v) l) vds vars)])
-           (vs_used st) (vs_spreads st).
+  = mkVars (vs_scope st) (m ++ [(k, fold_left (fun l v => set_add (v_name v) l) vds vars)])
+           (vs_seen st) (vs_used st) (vs_spreads st).
 Proof.
-  induction vds as [|v r IH]; intros st m n vars Hsc Hdef Hnone; cbn [flat_map fold_left].
-  - destruct st as [a b c e]. cbn in *. subst. reflexivity.
-  - rewrite cfold_app, (cfold_vardef v st m n vars Hsc Hdef Hnone).
-    rewrite (IH _ m n (set_add (v_name v) vars)); [reflexivity|exact Hsc|reflexivity|exact Hnone].
+  induction vds as [|v r IH]; intros st m k vars Hsc Hdef Hnone; cbn [flat_map fold_left].
+  - destruct st as [a b c e f]. cbn in *. subst. reflexivity.
+  - rewrite cfold_app, (cfold_vardef v st m k vars Hsc Hdef Hnone).
+    rewrite (IH _ m k (set_add (v_name v) vars)); [reflexivity|exact Hsc|reflexivity|exact Hnone].
 Qed.
 
-Lemma operations_of_app a b : operations_of (a ++ b) = operations_of a ++ operations_of b.
-Proof. apply flat_map_app. Qed.
+(* the key of the operation being entered is new: every key of the table has a smaller index *)
+Lemma def_entry_fresh pre n :
+  as_get opkey_eqb (nops pre, n) (map def_entry (iops 0 pre)) = None.
+Proof.
+  unfold def_entry.
+  apply (as_get_none_map opkey_eqb opkey_eqb_eq (fun io : nat * operation => (fst io, op_node_name (snd io)))).
+  intro H. apply in_map_iff in H. destruct H as ([i o] & E & Hin). cbn [fst snd] in E.
+  apply in_iops, idefs_op_lt in Hin. inversion E. lia.
+Qed.
+
+Lemma idefs_snoc pre x : idefs 0 (pre ++ [x]) = idefs 0 pre ++ [(nops pre, x)].
+Proof. rewrite idefs_app. cbn [Nat.add]. destruct x; reflexivity. Qed.
 
 Lemma TInv_step pre x st :
-  TInv pre st ->
-  (forall o, x = DOp o -> ~ In (op_node_name o) (map op_node_name (operations_of pre))) ->
-  TInv (pre ++ [x]) (cfold (lin_definition x) st).
+  TInv pre st -> TInv (pre ++ [x]) (cfold (lin_definition x) st).
 Proof.
-  intros [Hd Hu Hs] Hfresh. destruct x as [o|f].
-  - set (n := op_node_name o).
-    assert (Hnone : as_get oname_eqb n (vs_defined st) = None).
-    { rewrite Hd. unfold def_entry. apply (as_get_none_map oname_eqb oname_eqb_eq).
-      apply (Hfresh o eq_refl). }
+  intros [Hd Hk Hu Hs]. destruct x as [o|f].
+  - set (n := op_node_name o). set (i := nops pre).
+    assert (Hnone : as_get opkey_eqb (i, n) (vs_defined st) = None).
+    { rewrite Hd. apply def_entry_fresh. }
     cbn [lin_definition]. rewrite cfold_cons, !cfold_app.
     assert (E1 : vars_collect st (Enter (NOperation o))
-                 = mkVars (Some (ScOp n)) (vs_defined st ++ [(n, [])]) (vs_used st) (vs_spreads st)).
-    { cbn [vars_collect]. fold n. rewrite Hnone. reflexivity. }
-    rewrite E1. set (st1 := mkVars _ _ _ _).
-    destruct (Seg_directives (op_directives o) st1 (ScOp n) eq_refl) as (A1 & A2 & A3 & A4).
+                 = mkVars (Some (ScOp i n)) (vs_defined st ++ [((i, n), [])]) (S i) (vs_used st) (vs_spreads st)).
+    { cbn [vars_collect]. rewrite Hk. fold n i. rewrite Hnone. reflexivity. }
+    rewrite E1. set (st1 := mkVars _ _ _ _ _).
+    destruct (Seg_directives (op_directives o) st1 (ScOp i n) eq_refl) as (A1 & A2 & A5 & A3 & A4).
     set (st2 := cfold (flat_map lin_directive (op_directives o)) st1) in *.
-    cbn [st1 vs_defined vs_used vs_spreads] in A2, A3, A4.
-    rewrite (cfold_vardefs (op_variable_definitions o) st2 (vs_defined st) n [] A1 A2 Hnone).
-    set (st3 := mkVars _ _ _ _).
+    cbn [st1 vs_defined vs_seen vs_used vs_spreads] in A2, A3, A4, A5.
+    rewrite (cfold_vardefs (op_variable_definitions o) st2 (vs_defined st) (i, n) [] A1 A2 Hnone).
+    set (st3 := mkVars _ _ _ _ _).
     assert (Hseg : Seg (lin_selection_set (o_span o) (o_sels o) ++ [Leave (NOperation o)])
                        (sels_vars (o_sels o)) (spreads_in (o_sels o))).
     { apply Seg_snoc_inert; [apply Seg_selection_set|apply Inert_one; intro st'; reflexivity]. }
     rewrite <- cfold_app.
-    destruct (Hseg st3 (ScOp n) A1) as (B1 & B2 & B3 & B4).
-    cbn [st3 vs_defined vs_used vs_spreads] in B2, B3, B4.
+    destruct (Hseg st3 (ScOp i n) A1) as (B1 & B2 & B5 & B3 & B4).
+    cbn [st3 vs_defined vs_seen vs_used vs_spreads] in B2, B3, B4, B5.
     constructor.
-    + rewrite B2, Hd, operations_of_app, map_app. reflexivity.
-    + intro sc. rewrite B3, A3, Hu. unfold used_spec. rewrite flat_map_app. cbn [flat_map def_scope def_vars].
-      fold n. destruct (scope_eqb sc (ScOp n)); rewrite ?app_nil_r, <- ?app_assoc; reflexivity.
-    + intro sc. rewrite B4, A4, Hs. unfold sprs_spec. rewrite flat_map_app. cbn [flat_map def_scope def_sprs def_sels].
-      fold n. destruct (scope_eqb sc (ScOp n)); rewrite ?app_nil_r; reflexivity.
-  - cbn [lin_definition]. rewrite cfold_cons. cbn [vars_collect]. set (st1 := mkVars _ _ _ _).
+    + rewrite B2, Hd, iops_app, map_app. reflexivity.
+    + rewrite B5, A5, nops_app. unfold nops at 2. cbn. fold i. lia.
+    + intro sc. rewrite B3, A3, Hu. unfold used_spec. rewrite idefs_snoc, flat_map_app.
+      cbn [flat_map def_scope def_vars fst snd].
+      fold n i. destruct (scope_eqb sc (ScOp i n)); rewrite ?app_nil_r, <- ?app_assoc; reflexivity.
+    + intro sc. rewrite B4, A4, Hs. unfold sprs_spec. rewrite idefs_snoc, flat_map_app.
+      cbn [flat_map def_scope def_sprs def_sels fst snd].
+      fold n i. destruct (scope_eqb sc (ScOp i n)); rewrite ?app_nil_r; reflexivity.
+  - cbn [lin_definition]. rewrite cfold_cons. cbn [vars_collect]. set (st1 := mkVars _ _ _ _ _).
     assert (Hseg : Seg (flat_map lin_directive (fr_dirs f) ++ lin_selection_set (fr_span f) (fr_sels f) ++ [Leave (NFragmentDef f)])
                        (dirs_vars (fr_dirs f) ++ sels_vars (fr_sels f)) ([] ++ spreads_in (fr_sels f))).
     { apply Seg_app; [apply Seg_directives|].
       apply Seg_snoc_inert; [apply Seg_selection_set|apply Inert_one; intro st'; reflexivity]. }
-    destruct (Hseg st1 (ScFrag (fr_name f)) eq_refl) as (B1 & B2 & B3 & B4).
-    cbn [st1 vs_defined vs_used vs_spreads app] in B2, B3, B4.
+    destruct (Hseg st1 (ScFrag (fr_name f)) eq_refl) as (B1 & B2 & B5 & B3 & B4).
+    cbn [st1 vs_defined vs_seen vs_used vs_spreads app] in B2, B3, B4, B5.
     constructor.
-    + rewrite B2, Hd, operations_of_app. cbn [operations_of flat_map]. rewrite app_nil_r. reflexivity.
-    + intro sc. rewrite B3, Hu. unfold used_spec. rewrite flat_map_app. cbn [flat_map def_scope def_vars].
+    + rewrite B2, Hd, iops_app. unfold iops at 3. cbn [idefs flat_map snd]. rewrite app_nil_r. reflexivity.
+    + rewrite B5, Hk, nops_app. unfold nops at 3. cbn. lia.
+    + intro sc. rewrite B3, Hu. unfold used_spec. rewrite idefs_snoc, flat_map_app.
+      cbn [flat_map def_scope def_vars fst snd].
       rewrite app_nil_r. reflexivity.
-    + intro sc. rewrite B4, Hs. unfold sprs_spec. rewrite flat_map_app. cbn [flat_map def_scope def_sprs def_sels].
+    + intro sc. rewrite B4, Hs. unfold sprs_spec. rewrite idefs_snoc, flat_map_app.
+      cbn [flat_map def_scope def_sprs def_sels fst snd].
       rewrite app_nil_r. reflexivity.
 Qed.
 
 Lemma TInv_defs ds : forall pre st,
-  TInv pre st -> NoDup (map op_node_name (operations_of (pre ++ ds))) ->
-  TInv (pre ++ ds) (cfold (flat_map lin_definition ds) st).
+  TInv pre st -> TInv (pre ++ ds) (cfold (flat_map lin_definition ds) st).
 Proof.
-  induction ds as [|x r IH]; intros pre st Hinv Hnd; cbn [flat_map].
+  induction ds as [|x r IH]; intros pre st Hinv; cbn [flat_map].
   - rewrite app_nil_r. exact Hinv.
   - rewrite cfold_app.
-    replace (pre ++ x :: r) with ((pre ++ [x]) ++ r) in * by (rewrite <- app_assoc; reflexivity).
-    apply IH; [|exact Hnd]. apply TInv_step; [exact Hinv|].
-    intros o -> Hin. rewrite <- app_assoc in Hnd. cbn [app] in Hnd.
-    rewrite operations_of_app, map_app in Hnd. cbn [operations_of flat_map app map] in Hnd.
-    apply NoDup_remove_2 in Hnd. apply Hnd. apply in_or_app. left. exact Hin.
+    replace (pre ++ x :: r) with ((pre ++ [x]) ++ r) by (rewrite <- app_assoc; reflexivity).
+    apply IH. apply TInv_step. exact Hinv.
 Qed.
 
-Lemma TInv_document d :
-  NoDup (map op_node_name (operations_of d)) -> TInv d (cfold (lin_document d) vars_init).
+(* for every document: operations may share names or all be anonymous *)
+Lemma TInv_document d : TInv d (cfold (lin_document d) vars_init).
 Proof.
-  intro Hnd. unfold lin_document. rewrite cfold_cons, cfold_app.
+  unfold lin_document. rewrite cfold_cons, cfold_app.
   change (vars_collect vars_init (Enter (NDocument d))) with vars_init.
   change (cfold [Leave (NDocument d)] ?x) with x.
-  apply (TInv_defs d [] vars_init); [|exact Hnd].
+  apply (TInv_defs d [] vars_init).
   constructor; reflexivity.
 Qed.
 
@@ -592,11 +714,11 @@ Section Walk.
     (forall x v, In x vis -> In v (usedv x) -> pick v = true -> In v acc).
 
   Definition fuel_ok (fuel : nat) (from : scope) (vis : list scope) : Prop :=
-    measure vis + (match from with ScOp _ => 1 | ScFrag _ => 0 end) < fuel.
+    measure vis + (match from with ScOp _ _ => 1 | ScFrag _ => 0 end) < fuel.
 
   Definition WalkOK (fuel : nat) : Prop :=
     forall from acc vis,
-      reach from -> (match from with ScFrag sp => In sp U | ScOp _ => True end) -> fuel_ok fuel from vis ->
+      reach from -> (match from with ScFrag sp => In sp U | ScOp _ _ => True end) -> fuel_ok fuel from vis ->
       exists acc' vis', vars_walk fuel st pick from acc vis = Some (acc', vis') /\
         incl vis vis' /\ In from vis' /\ (forall S, WInv S vis acc -> WInv S vis' acc').
 
@@ -631,8 +753,8 @@ Section Walk.
         destruct (loop_correct fuel IHf (succs from) (pick_fold (usedv from) acc) (vis ++ [from]))
           as (a' & v' & E' & I1 & I2 & I3).
         { intros sp Hsp. split; [eapply reach_step; eassumption|eapply HU; eassumption]. }
-        { unfold fuel_ok in Hfuel. destruct from as [n|sp].
-          - pose proof (measure_mono vis (vis ++ [ScOp n]) (incl_appl _ (incl_refl _))). lia.
+        { unfold fuel_ok in Hfuel. destruct from as [i n|sp].
+          - pose proof (measure_mono vis (vis ++ [ScOp i n]) (incl_appl _ (incl_refl _))). lia.
           - pose proof (measure_lt vis sp HinU Hnot). lia. }
         assert (Hfrom : In from v') by (apply I1, in_or_app; right; left; reflexivity).
         exists a', v'. split; [exact E'|]. split; [|split; [exact Hfrom|]].
@@ -660,7 +782,7 @@ Section Walk.
   Qed.
 
   Lemma walk_top fuel :
-    (match root with ScFrag sp => In sp U | ScOp _ => True end) ->
+    (match root with ScFrag sp => In sp U | ScOp _ _ => True end) ->
     List.length U + 1 < fuel ->
     exists acc vis, vars_walk fuel st pick root [] [] = Some (acc, vis) /\
       (forall x, In x vis <-> reach x) /\
@@ -739,55 +861,50 @@ Qed.
 
 Lemma sprs_spec_frag d n : sprs_spec d (ScFrag n) = fragment_spreads d n.
 Proof.
-  unfold sprs_spec, fragment_spreads, fragments_of. rewrite fm_fm.
-  apply flat_map_all_ext. intros [o|f]; cbn [def_scope scope_eqb flat_map def_sprs def_sels].
-  - reflexivity.
-  - rewrite app_nil_r, name_eqb_sym. reflexivity.
+  unfold sprs_spec, fragment_spreads, fragments_of. generalize 0 as k.
+  induction d as [|x r IH]; intro k; cbn [idefs flat_map]; [reflexivity|].
+  destruct x as [o|f]; cbn [idefs flat_map app]; unfold def_scope at 1; cbn [snd fst scope_eqb app def_sprs def_sels].
+  - apply IH.
+  - rewrite name_eqb_sym. f_equal. apply IH.
 Qed.
 
 Lemma used_spec_frag d n : used_spec d (ScFrag n) = fragment_vars d n.
 Proof.
-  unfold used_spec, fragment_vars, fragments_of. rewrite fm_fm.
-  apply flat_map_all_ext. intros [o|f]; cbn [def_scope scope_eqb flat_map def_vars].
-  - reflexivity.
-  - rewrite app_nil_r, name_eqb_sym. reflexivity.
+  unfold used_spec, fragment_vars, fragments_of. generalize 0 as k.
+  induction d as [|x r IH]; intro k; cbn [idefs flat_map]; [reflexivity|].
+  destruct x as [o|f]; cbn [idefs flat_map app]; unfold def_scope at 1; cbn [snd fst scope_eqb app def_vars].
+  - apply IH.
+  - rewrite name_eqb_sym. f_equal. apply IH.
 Qed.
 
-Lemma in_operations_of d o : In o (operations_of d) <-> In (DOp o) d.
-Proof.
-  unfold operations_of. rewrite in_flat_map. split.
-  - intros ([o'|f] & Hx & Ho); [|destruct Ho]. destruct Ho as [->|[]]. exact Hx.
-  - intro H. exists (DOp o). split; [exact H|left; reflexivity].
-Qed.
-
-Lemma spec_op_In (g : definition -> list name) d o x :
-  NoDup (map op_node_name (operations_of d)) -> In o (operations_of d) ->
-  (In x (flat_map (fun y => if scope_eqb (ScOp (op_node_name o)) (def_scope y) then g y else []) d)
+(* the entries of a table under the scope of the operation with index i are those of that
+   operation alone *)
+Lemma spec_op_In (g : definition -> list name) d i o x :
+  In (i, DOp o) (idefs 0 d) ->
+  (In x (flat_map (fun y => if scope_eqb (ScOp i (op_node_name o)) (def_scope y) then g (snd y) else []) (idefs 0 d))
    <-> In x (g (DOp o))).
 Proof.
-  intros Hnd Ho. rewrite in_flat_map. split.
-  - intros (y & Hy & Hx). destruct (scope_eqb (ScOp (op_node_name o)) (def_scope y)) eqn:E; [|destruct Hx].
-    apply scope_eqb_eq in E. destruct y as [o'|f]; cbn [def_scope] in E; [|discriminate].
-    inversion E as [E']. apply in_operations_of in Hy.
-    rewrite (NoDup_map_inj op_node_name _ o o' Hnd Ho Hy E'). exact Hx.
-  - intro Hx. exists (DOp o). split; [apply in_operations_of, Ho|].
-    cbn [def_scope]. rewrite scope_eqb_refl. exact Hx.
+  intros Ho. rewrite in_flat_map. split.
+  - intros (y & Hy & Hx). destruct (scope_eqb (ScOp i (op_node_name o)) (def_scope y)) eqn:E; [|destruct Hx].
+    apply scope_eqb_eq in E. destruct y as [j [o'|f]]; unfold def_scope in E; cbn [fst snd] in E, Hx; [|discriminate].
+    inversion E. subst j. rewrite (idefs_index_inj d 0 i o o' Ho Hy). exact Hx.
+  - intro Hx. exists (i, DOp o). split; [exact Ho|].
+    unfold def_scope. cbn [fst snd]. rewrite scope_eqb_refl. exact Hx.
 Qed.
 
 Section Connect.
-  Variables (d : document) (st : vars_state) (o : operation).
-  Hypothesis Hnd : NoDup (map op_node_name (operations_of d)).
+  Variables (d : document) (st : vars_state) (i : nat) (o : operation).
   Hypothesis Hinv : TInv d st.
-  Hypothesis Ho : In o (operations_of d).
+  Hypothesis Ho : In (i, DOp o) (idefs 0 d).
 
-  Let root := ScOp (op_node_name o).
+  Let root := ScOp i (op_node_name o).
 
   Lemma succs_root x : In x (succs st root) <-> In x (spreads_in (o_sels o)).
-  Proof. unfold succs. rewrite (ti_sprs _ _ Hinv). apply (spec_op_In def_sprs d o x Hnd Ho). Qed.
+  Proof. unfold succs. rewrite (ti_sprs _ _ Hinv). apply (spec_op_In def_sprs d i o x Ho). Qed.
 
   Lemma usedv_root x :
     In x (usedv st root) <-> In x (dirs_vars (op_directives o) ++ sels_vars (o_sels o)).
-  Proof. unfold usedv. rewrite (ti_used _ _ Hinv). apply (spec_op_In def_vars d o x Hnd Ho). Qed.
+  Proof. unfold usedv. rewrite (ti_used _ _ Hinv). apply (spec_op_In def_vars d i o x Ho). Qed.
 
   Lemma succs_frag n : succs st (ScFrag n) = fragment_spreads d n.
   Proof. unfold succs. rewrite (ti_sprs _ _ Hinv). apply sprs_spec_frag. Qed.
@@ -840,28 +957,28 @@ Qed.
 Lemma succs_in_all d st : TInv d st -> forall sc sp, In sp (succs st sc) -> In sp (all_spreads d).
 Proof.
   intros Hinv sc sp. unfold succs. rewrite (ti_sprs _ _ Hinv). unfold sprs_spec, all_spreads.
-  rewrite !in_flat_map. intros (x & Hx & Hsp). exists x. split; [exact Hx|].
-  destruct (scope_eqb sc (def_scope x)); [exact Hsp|destruct Hsp].
+  rewrite !in_flat_map. intros ([i x] & Hx & Hsp). exists x. split; [exact (idefs_snd_In 0 d i x Hx)|].
+  destruct (scope_eqb sc (def_scope (i, x))); [exact Hsp|destruct Hsp].
 Qed.
 
 (* fuel sufficiency and the result of the walk from an operation *)
-Lemma vars_walk_total d st o pick :
-  NoDup (map op_node_name (operations_of d)) -> TInv d st -> In o (operations_of d) ->
-  exists acc vis, vars_walk (vars_fuel d) st pick (ScOp (op_node_name o)) [] [] = Some (acc, vis) /\
+Lemma vars_walk_total d st i o pick :
+  TInv d st -> In (i, o) (iops 0 d) ->
+  exists acc vis, vars_walk (vars_fuel d) st pick (ScOp i (op_node_name o)) [] [] = Some (acc, vis) /\
     forall v, In v acc <-> pick v = true /\ In v (vars_used_in_op d o).
 Proof.
-  intros Hnd Hinv Ho.
-  destruct (walk_top st pick (all_spreads d) (succs_in_all d st Hinv) (ScOp (op_node_name o)) (vars_fuel d) I)
+  intros Hinv Ho. apply in_iops in Ho.
+  destruct (walk_top st pick (all_spreads d) (succs_in_all d st Hinv) (ScOp i (op_node_name o)) (vars_fuel d) I)
     as (acc & vis & E & _ & Hacc).
   { rewrite all_spreads_length. unfold vars_fuel. lia. }
   exists acc, vis. split; [exact E|]. intro v. rewrite Hacc.
-  rewrite (used_in_op_iff d st o Hnd Hinv Ho v). reflexivity.
+  rewrite (used_in_op_iff d st i o Hinv Ho v). reflexivity.
 Qed.
 
 (* ------------------------------------------------------------------ (d) the two equivalences *)
-Lemma finish_errors (W : option name * list name -> option (list name * list scope))
-      (F : option name * list name -> list name -> list verror) l : forall res0,
-  r_errors (fold_left (fun (res : rule_result) (entry : option name * list name) =>
+Lemma finish_errors (W : (nat * option name) * list name -> option (list name * list scope))
+      (F : (nat * option name) * list name -> list name -> list verror) l : forall res0,
+  r_errors (fold_left (fun (res : rule_result) (entry : (nat * option name) * list name) =>
                          match W entry with
                          | Some (r, _) => mkRes (r_errors res ++ F entry r) (r_oof res)
                          | None => mkRes (r_errors res) true
@@ -904,62 +1021,65 @@ Proof.
 Qed.
 
 Lemma collected_state s d :
-  distinct_operations d = true ->
   exists st, visit_document (fun st e (_ : ctx) => vars_collect st e) s d ctx0 vars_init = (ctx0, st) /\
-             TInv d st /\ NoDup (map op_node_name (operations_of d)).
+             TInv d st.
 Proof.
-  intro Ho. pose proof (distinct_operations_NoDup d Ho) as Hnd.
-  exists (cfold (lin_document d) vars_init). split; [|split; [apply TInv_document, Hnd|exact Hnd]].
+  exists (cfold (lin_document d) vars_init). split; [|apply TInv_document].
   rewrite visit_fold, collect_fold. reflexivity.
 Qed.
 
+(* no side condition on the names of the operations: each operation has its own table *)
 Theorem no_undefined_variables_iff : forall s d,
-  distinct_fragments d = true -> distinct_operations d = true ->
+  distinct_fragments d = true ->
   (run_alone R_NoUndefinedVariables s d <> [] <-> violated R_NoUndefinedVariables s d = true).
 Proof.
-  intros s d _ Hdo. destruct (collected_state s d Hdo) as (st & Evis & Hinv & Hnd).
+  intros s d _. destruct (collected_state s d) as (st & Evis & Hinv).
   unfold run_alone. cbn [run_rule violated]. rewrite Evis. cbn [snd]. unfold nudv_finish.
   rewrite (finish_errors
-             (fun entry => vars_walk (vars_fuel d) st (fun v => negb (mem_name v (snd entry))) (ScOp (fst entry)) [] [])
+             (fun entry => vars_walk (vars_fuel d) st (fun v => negb (mem_name v (snd entry)))
+                                     (ScOp (fst (fst entry)) (snd (fst entry))) [] [])
              (fun _ undefined => map (fun _ => err R_NoUndefinedVariables []) undefined)).
   cbn [r_errors app]. rewrite (ti_defined _ _ Hinv), flat_map_nonnil.
   unfold v_no_undefined_variables. rewrite existsb_exists. split.
-  - intros (e & He & Hne). apply in_map_iff in He. destruct He as (o & <- & Ho).
-    exists o. split; [exact Ho|]. cbn [def_entry fst snd] in Hne.
-    destruct (vars_walk_total d st o (fun v => negb (mem_name v (vset o))) Hnd Hinv Ho) as (acc & vis & E & Hacc).
+  - intros (e & He & Hne). apply in_map_iff in He. destruct He as ([i o] & <- & Ho).
+    exists o. split; [apply operations_iops; exists i; exact Ho|]. cbn [def_entry fst snd] in Hne.
+    destruct (vars_walk_total d st i o (fun v => negb (mem_name v (vset o))) Hinv Ho) as (acc & vis & E & Hacc).
     rewrite E in Hne. destruct acc as [|v acc]; [cbn in Hne; congruence|].
     destruct (proj1 (Hacc v) (or_introl eq_refl)) as [Hp Hv].
     apply existsb_exists. exists v. split; [exact Hv|]. rewrite <- mem_vset. exact Hp.
   - intros (o & Ho & Hex). apply existsb_exists in Hex. destruct Hex as (v & Hv & Hp).
-    exists (def_entry o). split; [apply in_map, Ho|]. cbn [def_entry fst snd].
-    destruct (vars_walk_total d st o (fun v => negb (mem_name v (vset o))) Hnd Hinv Ho) as (acc & vis & E & Hacc).
+    apply operations_iops in Ho. destruct Ho as (i & Ho).
+    exists (def_entry (i, o)). split; [apply in_map, Ho|]. cbn [def_entry fst snd].
+    destruct (vars_walk_total d st i o (fun v => negb (mem_name v (vset o))) Hinv Ho) as (acc & vis & E & Hacc).
     rewrite E. assert (Hin : In v acc).
     { apply Hacc. split; [rewrite mem_vset; exact Hp|exact Hv]. }
     destruct acc; [destruct Hin|cbn; congruence].
 Qed.
 
 Theorem no_unused_variables_iff : forall s d,
-  distinct_fragments d = true -> distinct_operations d = true ->
+  distinct_fragments d = true ->
   (run_alone R_NoUnusedVariables s d <> [] <-> violated R_NoUnusedVariables s d = true).
 Proof.
-  intros s d _ Hdo. destruct (collected_state s d Hdo) as (st & Evis & Hinv & Hnd).
+  intros s d _. destruct (collected_state s d) as (st & Evis & Hinv).
   unfold run_alone. cbn [run_rule violated]. rewrite Evis. cbn [snd]. unfold nuv_finish.
   rewrite (finish_errors
-             (fun entry => vars_walk (vars_fuel d) st (fun v => mem_name v (snd entry)) (ScOp (fst entry)) [] [])
+             (fun entry => vars_walk (vars_fuel d) st (fun v => mem_name v (snd entry))
+                                     (ScOp (fst (fst entry)) (snd (fst entry))) [] [])
              (fun entry used => flat_map (fun v => if mem_name v used then [] else [err R_NoUnusedVariables []]) (snd entry))).
   cbn [r_errors app]. rewrite (ti_defined _ _ Hinv), flat_map_nonnil.
   unfold v_no_unused_variables. rewrite existsb_exists. split.
-  - intros (e & He & Hne). apply in_map_iff in He. destruct He as (o & <- & Ho).
-    exists o. split; [exact Ho|]. cbn [def_entry fst snd] in Hne.
-    destruct (vars_walk_total d st o (fun v => mem_name v (vset o)) Hnd Hinv Ho) as (acc & vis & E & Hacc).
+  - intros (e & He & Hne). apply in_map_iff in He. destruct He as ([i o] & <- & Ho).
+    exists o. split; [apply operations_iops; exists i; exact Ho|]. cbn [def_entry fst snd] in Hne.
+    destruct (vars_walk_total d st i o (fun v => mem_name v (vset o)) Hinv Ho) as (acc & vis & E & Hacc).
     rewrite E in Hne. apply flat_map_nonnil in Hne. destruct Hne as (v & Hv & Hne).
     destruct (mem_name v acc) eqn:Em; [congruence|].
     apply existsb_exists. exists v. split; [apply vset_In, Hv|].
     apply negb_true_iff, mem_name_false. intro Hu. apply mem_name_false in Em. apply Em.
     apply Hacc. split; [apply mem_name_In, Hv|exact Hu].
   - intros (o & Ho & Hex). apply existsb_exists in Hex. destruct Hex as (v & Hv & Hp).
-    exists (def_entry o). split; [apply in_map, Ho|]. cbn [def_entry fst snd].
-    destruct (vars_walk_total d st o (fun v => mem_name v (vset o)) Hnd Hinv Ho) as (acc & vis & E & Hacc).
+    apply operations_iops in Ho. destruct Ho as (i & Ho).
+    exists (def_entry (i, o)). split; [apply in_map, Ho|]. cbn [def_entry fst snd].
+    destruct (vars_walk_total d st i o (fun v => mem_name v (vset o)) Hinv Ho) as (acc & vis & E & Hacc).
     rewrite E. apply flat_map_nonnil. exists v. split; [apply vset_In, Hv|].
     apply negb_true_iff, mem_name_false in Hp.
     destruct (mem_name v acc) eqn:Em; [|congruence].
